@@ -465,3 +465,162 @@ Proof.
   split; [exact E|].
   exact (proj1 (proj2 (proj2 (proj2 (C04_link_header_fetch _ _ _ _ E)))) [1; 2; 3]).
 Qed.
+
+(* ==================================================================================== *)
+(** * The composed byte-level theorem *)
+From ZV Require Dl.Session Dl.SessionProofs Dl.UpdateByteMp Dl.UpdateByteEquiv Dl.UpdateByteCopy
+                Dl.UpdateByteRun Dl.UpdateByteFinal.
+Module BMp := Dl.UpdateByteMp.
+Module BE := Dl.UpdateByteEquiv.
+Module BCp := Dl.UpdateByteCopy.
+Module BR := Dl.UpdateByteRun.
+Module BF := Dl.UpdateByteFinal.
+
+(** (d) multipart responses, complete: no confinement hypothesis is left - every write of the
+    multipart extractor goes through dl_write_range, so C05_confinement lifts to any transfer
+    ([BMp.transfer_confined]).  Supersedes C04_link_place_multipart_partial. *)
+Theorem C04_link_place_multipart :
+  forall H ds ul doff fb ridx tab0 datas B parts fpos file pre quoted frags,
+  Dl.DlPlace.req_ok doff ridx tab0 -> Dl.DlPlace.datas_ok H ridx tab0 datas ->
+  Dl.MpPlace.wf_body B parts datas ->
+  Forall (fun c => c <> 0) pre ->
+  (forall k, (k < length pre)%nat ->
+     Dl.LiteralMatcher.prefix_ic Dl.LiteralMatcher.kw_boundary (skipn k (pre ++ Dl.LiteralMatcher.kw_boundary)) = false) ->
+  B <> [] -> (quoted = false -> hd 0 B <> 32 /\ hd 0 B <> 34) ->
+  len (Dl.MpGrammar.ct_line pre B quoted) < two64 ->
+  Forall (fun fr => fr <> []) frags -> concat frags = Dl.MpGrammar.mp_body B parts ->
+  Forall (fun c => length (Wr.c_digest c) = ds) tab0 ->
+  StronglySorted lt (map Wr.r_tgt ridx) ->
+  LP.from_server doff fb ridx tab0 datas ->
+  exists x' rets,
+    Dl.Multipart.feed_frags H doff ridx Dl.LiteralMatcher.lit_comp Dl.LiteralMatcher.lit_exec
+      (Dl.Multipart.header_cb Dl.LiteralMatcher.lit_comp Dl.LiteralMatcher.lit_exec
+         (Dl.MpFinal.x_start fpos file tab0) (Dl.MpGrammar.ct_line pre B quoted)) frags = (x', rets, true) /\
+    place (LP.Hc H ds) (map Wr.r_tgt ridx) 0 (LP.absr ul doff fb 0 tab0 file) =
+      (LP.absr ul doff fb 0 (Wr.d_tab (Dl.Multipart.x_dl x')) (Wr.d_file (Dl.Multipart.x_dl x')), true).
+Proof. exact BMp.link_place_multipart. Qed.
+Print Assumptions C04_link_place_multipart.
+
+(** Targets up to the contents of non-valid extents ([BE.eqv]: same index entries, same server
+    bytes, same flags, same extent bytes wherever the flag is valid).  The request loop
+    respects it (after reset_failed no chunk is flagged failed): same status, same events,
+    equivalent final target. *)
+Theorem C04_loop_respects_eqv :
+  forall (Hc Hf : bytes -> bytes) fuel B srv hdr extra maxr ra sl sl' ev,
+  BE.eqv sl sl' -> Forall nofail sl ->
+  BE.outcome_eqv (dl_loop Hc Hf fuel B srv hdr extra maxr ra sl ev) (dl_loop Hc Hf fuel B srv hdr extra maxr ra sl' ev).
+Proof. exact BE.dl_loop_eqv. Qed.
+Print Assumptions C04_loop_respects_eqv.
+
+(** (c) without [no_gap]: for EVERY target file that holds at least the header, with flags
+    whose valid entries lie inside the file (what the scan establishes), the byte-level
+    copy abstracts to [copy_chunks] up to [BE.eqv] (a write behind the end of the file
+    zero-fills skipped non-valid extents). *)
+Theorem C04_link_copy_eqv :
+  forall (H : N -> bytes -> bytes) (sh : Hd.header) (sf : bytes) (th : Hd.header) (fb tf : bytes) (fl : list Z),
+  CpP.known (Hd.h_chash sh) -> CpP.known (Hd.h_chash th) -> L.sized sh -> L.sized th ->
+  Format.ParseProofs.starts_ok 0 (Hd.h_chunks th) -> LCp.src_complete sh sf ->
+  BCp.flags_inside th (Hd.h_chunks th) fl tf -> Sc.data_offset th <= len tf ->
+  exists fl' tf',
+    Cp.copy_chunks H sh sf th tf fl = Some (fl', tf', sf) /\
+    BE.eqv (t_slots (L.abs th fb tf' fl'))
+           (copy_chunks (L.Hc_of H th) (Some (LCp.abs_old sh sf)) (t_slots (L.abs th fb tf fl))) /\
+    t_hdr (L.abs th fb tf' fl') = t_hdr (L.abs th fb tf fl) /\
+    len tf <= len tf' /\ BCp.flags_inside th (Hd.h_chunks th) fl' tf'.
+Proof. exact BCp.link_copy_eqv. Qed.
+Print Assumptions C04_link_copy_eqv.
+
+(** the hypothesis on the server is satisfiable for every B *)
+Theorem C04_plain_server_serves :
+  forall (h : Hd.header) (fb : bytes), BF.serves_B h fb (BF.plain_server h fb).
+Proof. exact BF.plain_server_serves. Qed.
+Print Assumptions C04_plain_server_serves.
+
+(** THE COMPOSED THEOREM.  [BF.byte_update] runs the byte-level component models in the
+    order of zck_dl.c: header fetch (the first max(89, header) bytes of B written at offset
+    0), Scan.validate_checksums, Copy.copy_chunks from the old file + reset of failed
+    flags, then the request loop [BR.byte_loop]: zck_missing_chunks, Range.missing_range
+    with the current max_ranges, the ra_index / range_attempt bookkeeping ([advance]), a
+    refused request (more ranges than the server allows) changes nothing and lowers
+    max_ranges, a served one is Multipart.feed_frags / DlWrite.dlw on a fresh zckDL for the
+    request (range index = first entries of Session.missing_ridx) over the response the
+    server/transport oracle [serve] produces; finally ftruncate to B's length.
+    Hypotheses: B ([fb]) is accepted by the header reader with record [h], is not a
+    detached header, its digests have the size of their type, every chunk passes
+    validate_chunk and the data digest is right ([wf_new] of its abstraction), the file ends
+    with its data section and is addressable with a size_t; the old file (if any) has
+    known checksum type, sized digests and no extent cut by its end; the server allows at
+    least one range per request and answers every consistent request with the requested
+    extents of B (single-range body or well-formed multipart body, any non-empty
+    fragmentation).  For EVERY initial target file, flag list and context state:
+    the reader finds [h] in the target after the header fetch, and the run ends regularly
+    with the target equal to B byte for byte and every flag 1 - or two different byte
+    strings with the same chunk checksum exist. *)
+Theorem C04_byte_level_reconstructs_B :
+  forall (H : N -> bytes -> bytes) (p : PI.pins) (h : Hd.header) (fb : bytes)
+         (old : option (Hd.header * bytes)) (serve : list Wr.rentry -> BR.resp) (srv : N)
+         (tf : bytes) (fl0 : list Z) (st : Sc.rstate),
+  PI.parse_impl H p fb = PI.POk h -> wf_bytes fb ->
+  Hd.h_detached h = false -> L.sized h ->
+  len fb = Sc.data_offset h + Hd.data_total (Hd.h_chunks h) ->
+  Sc.data_offset h + Hd.data_total (Hd.h_chunks h) < two64 ->
+  wf_new (L.Hc_of H h) (L.Hf_of H h) (L.abs_new h fb) (t_slots (L.abs h fb fb [])) ->
+  BF.old_ok h old -> 1 <= srv -> BF.serves_B h fb serve ->
+  PI.parse_impl H p (Wr.file_write tf 0 (BF.fetch_bytes h fb)) = PI.POk h /\
+  (collision (L.Hc_of H h) \/
+   exists fl' ev, BF.byte_update H h fb old serve srv tf fl0 st = Some (BR.BFinish, fl', fb, ev) /\
+                  (forall i c, nth_error (Hd.h_chunks h) i = Some c -> nth i fl' 0%Z = 1%Z)).
+Proof. exact BF.byte_level_reconstructs. Qed.
+Print Assumptions C04_byte_level_reconstructs_B.
+
+(** Non-vacuity of the composed theorem: a sealed file under the toy hash of the header
+    examples (SHA-512/128 slot: 16-byte digests): empty dictionary entry, chunks "abc" and
+    "de"; header 99 bytes (longer than the probe). *)
+Definition bx_z16 : bytes := repeat 0 16%nat.
+Definition bx_c1 : bytes := [97; 98; 99].
+Definition bx_c2 : bytes := [100; 101].
+Definition bx_d (m : bytes) : bytes := Format.ParseExamples.toyH 3 m.
+Definition bx_index : bytes :=
+  [131; 131] ++ bx_z16 ++ [128; 128] ++ bx_d bx_c1 ++ [131; 131] ++ bx_d bx_c2 ++ [130; 130].
+Definition bx_hdr : bytes := bx_d (bx_c1 ++ bx_c2) ++ [128; 128; 184] ++ bx_index ++ [128].
+Definition bx_file : bytes :=
+  Hd.magic_zck ++ [131; 204] ++ bx_d (Hd.magic_zck ++ [131; 204] ++ bx_hdr) ++ bx_hdr ++ bx_c1 ++ bx_c2.
+Definition bx_h : Hd.header :=
+  Hd.mkHeader false 3 23 76 (bx_d (Hd.magic_zck ++ [131; 204] ++ bx_hdr)) (bx_d (bx_c1 ++ bx_c2)) 0 0 3 3
+    [Hd.mkChunk bx_z16 None 0 0 0; Hd.mkChunk (bx_d bx_c1) None 3 3 0; Hd.mkChunk (bx_d bx_c2) None 2 2 3] 19 56.
+
+Example C04_ex_byte_level_hyps :
+  PI.parse_impl Format.ParseExamples.toyH PI.no_pins bx_file = PI.POk bx_h /\ wf_bytes bx_file /\
+  Hd.h_detached bx_h = false /\ L.sized bx_h /\
+  len bx_file = Sc.data_offset bx_h + Hd.data_total (Hd.h_chunks bx_h) /\
+  Sc.data_offset bx_h + Hd.data_total (Hd.h_chunks bx_h) < two64 /\
+  wf_new (L.Hc_of Format.ParseExamples.toyH bx_h) (L.Hf_of Format.ParseExamples.toyH bx_h) (L.abs_new bx_h bx_file)
+         (t_slots (L.abs bx_h bx_file bx_file [])) /\
+  BF.old_ok bx_h None /\ BF.serves_B bx_h bx_file (BF.plain_server bx_h bx_file).
+Proof.
+  split; [vm_compute; reflexivity|]. split; [apply wf_bytesb_spec; vm_compute; reflexivity|].
+  split; [reflexivity|]. split; [split; [repeat constructor|reflexivity]|].
+  split; [vm_compute; reflexivity|]. split; [vm_compute; reflexivity|].
+  split; [split; [repeat constructor|intros _; vm_compute; reflexivity]|].
+  split; [exact I|apply BF.plain_server_serves].
+Qed.
+
+(** the byte-level run from a garbage target, no old file: probe + rest of the header, then
+    one request for chunks 1 and 2 (one range); the target ends up equal to B *)
+Example C04_ex_byte_level_run :
+  BF.byte_update Format.ParseExamples.toyH bx_h bx_file None (BF.plain_server bx_h bx_file) 1000
+                 [9; 9; 9; 9; 9] [] (Sc.opened bx_h) =
+  Some (BR.BFinish, [1; 1; 1]%Z, bx_file, [Served [1; 2]%nat 1]).
+Proof. vm_compute. reflexivity. Qed.
+
+(** with an old file that holds "de" and a server that allows one range per request: "de" is
+    copied, only "abc" is requested *)
+Definition bx_old_h : Hd.header :=
+  Hd.mkHeader false 3 10 20 bx_z16 bx_z16 0 0 3 2
+    [Hd.mkChunk bx_z16 None 0 0 0; Hd.mkChunk (bx_d bx_c2) None 2 2 0] 0 0.
+Definition bx_old_f : bytes := repeat 7 30%nat ++ bx_c2.
+Example C04_ex_byte_level_run_old :
+  BF.byte_update Format.ParseExamples.toyH bx_h bx_file (Some (bx_old_h, bx_old_f)) (BF.plain_server bx_h bx_file) 1
+                 [] [] (Sc.opened bx_h) =
+  Some (BR.BFinish, [1; 1; 1]%Z, bx_file, [Served [1]%nat 1]).
+Proof. vm_compute. reflexivity. Qed.
